@@ -16,7 +16,9 @@ META = {
     "text": ("Lean theorems Hv.C13.parse_serialize (exact-bytes round trip on encoder-chosen headers) and parse_serialize_structural "
              "(any header widths), apply_wf (a reported success leaves a body the parser accepts, when op values are validated), "
              "untouched_bytes (every sub-tree off the op's path is identical afterwards), ops_atomic / ops_atomic_fold / cond_unmet, "
-             "inc_preserves_code, cond_numeric and nan_equal_nothing — all for arbitrary inputs; closed witnesses witness_unvalidated "
+             "inc_preserves_code / inc_keeps_format (op level), cond_numeric and nan_equal_nothing, apply_refines_spec_partial (parsing the returned body "
+             "gives Spec.refOps — the eight documented ops over the decoded tree — of the parsed input; REMOVE_VAL with scalar values), "
+             "untouched_target (siblings of the target, incl. one-segment paths), atomic_fold — all for arbitrary inputs; closed witnesses witness_unvalidated "
              "(SET x <- 0xc1 succeeds, body no longer parses) and witness_nan_equal (EQUAL NaN is met) refute the property for the "
              "unrepaired fact values; classify_sound ties the decision to the extracted facts."),
     "note": ("Trusted: Lean kernel (propext, Classical.choice, Quot.sound); extract/c13.go; harness/c13.go; checks/C13.py. The model "
@@ -749,7 +751,8 @@ def run(ctx):
             ctx.violation("allocation probe: implementation and model disagree", {"ops": [line], "impl": [out], "model": [mod]},
                           tag="corr", found_input=False)
     if ctx.thorough:
-        ok, out = K.leanchecker(ctx, ["Hv.Props.C13", "Hv.Patch.OpsWf", "Hv.Patch.RoundTrip", "Hv.Patch.Untouched", "Hv.Patch.NumLemmas"])
+        ok, out = K.leanchecker(ctx, ["Hv.Props.C13", "Hv.Patch.OpsWf", "Hv.Patch.RoundTrip", "Hv.Patch.Untouched", "Hv.Patch.NumLemmas",
+                                      "Hv.Patch.SpecRefine", "Hv.Patch.Target", "Hv.Patch.LeafBytes"])
         ctx.cov["leanchecker"] = "ok" if ok else out[-500:]
         if not ok:
             ctx.violation("leanchecker rejected the compiled proofs", {"log": out[-2000:]}, tag="leanchecker", found_input=False)
